@@ -17,6 +17,7 @@ CLASSES = [
     "extra_conn",
     "bad_port_ref",
     "bad_member",
+    "extra_member",
     "bad_index",
     "empty_slice",
     "orphan_other_module",
@@ -278,6 +279,23 @@ def _bad_member(ch, ops, d, hier, top):
         return [], node
 
     return _replace_live_x(ch, ops, d, hier, pred2, make2)
+
+
+def _extra_member(ch, ops, d, hier, top):
+    """An anonymous bundle / dict connection brings a member the port's bundle does not have."""
+
+    def pred(op, path, node):
+        return node[0] in ("an", "d") and not path
+
+    def make(mid, node, op):
+        node = copy.deepcopy(node)
+        name, sop = _fresh_sig(ops, mid, 1, "xm")
+        node[-1]["zextra"] = ["s", name]
+        if node[0] == "an":
+            node[1] = node[1] + 2000
+        return [sop], node
+
+    return _replace_live_x(ch, ops, d, hier, pred, make)
 
 
 def _bad_index(ch, ops, d, hier, top):
